@@ -33,6 +33,13 @@ Accepted subset (anything else raises TranslatorError, which the runner treats l
     substituting remembered locals, by its `ast.unparse` text in a per-function vocabulary (below).  `x is None`,
     `x is not None`, `x not in y` are read as the negation / the atom of the positive form.  An atom outside the vocabulary
     is an error: `peer == next_relay.hop.peer`, `!=` instead of `is not`, a dropped or added conjunct with a new name.
+  * conditions are emitted in a normal form (class Cond): negations pushed to the atoms (De Morgan, `!=`, `is not`,
+    `not in`), nested and/or of one kind flattened; so a guard clause on the negated test, or a De Morgan'd test, gives
+    the same text as the original;
+  * `self._helper(args)` where `_helper` is a one-expression private method (collect_helpers) is replaced by its
+    expression; module-level integer constants of crypto.py and `<Payload>.msg_id` are replaced by the literal
+    (module_consts / fn_env); on_data may be `if ours: .. else: exit`, `if not ours: exit else: ..` or the guard clause
+    `if not ours: .. exit_data ..; return`;
   * operands of `and` / `or` are emitted in sorted order (atoms are total booleans in the model), so re-ordered conjuncts,
     renamed locals, added logging and keyword/positional differences in the atoms' calls give the identical Lean file.
 """
@@ -46,6 +53,7 @@ COMM = "ipv8/messaging/anonymization/community.py"
 CRYPTO = "ipv8/messaging/anonymization/crypto.py"
 PAYLOAD = "ipv8/messaging/anonymization/payload.py"
 TUNNEL = "ipv8/messaging/anonymization/tunnel.py"
+HIDDEN = "ipv8/messaging/anonymization/hidden_services.py"
 
 
 # ---- helpers ---------------------------------------------------------------------------------------------------------
@@ -80,6 +88,8 @@ def _is_log(st) -> bool:
 
 
 class Subst(ast.NodeTransformer):
+    """remembered locals / resolved module constants -> their expressions (keys: a name, or the text of `X.attr`)"""
+
     def __init__(self, env):
         self.env = env
 
@@ -88,44 +98,133 @@ class Subst(ast.NodeTransformer):
             return self.env[node.id]
         return node
 
+    def visit_Attribute(self, node):
+        if isinstance(node.ctx, ast.Load) and isinstance(node.value, ast.Name) and ast.unparse(node) in self.env:
+            return self.env[ast.unparse(node)]
+        return self.generic_visit(node)
+
 
 def _norm(e, env) -> str:
     import copy
     return ast.unparse(Subst(env).visit(copy.deepcopy(e)))
 
 
+# private one-expression helper methods of the translated classes: name -> (parameter names, returned expression)
+_HELPERS: dict[str, tuple[list[str], ast.expr]] = {}
+
+
+def _pure_arg(e) -> bool:
+    """an argument that can be evaluated any number of times: names, attribute reads, constants"""
+    return all(isinstance(n, (ast.Name, ast.Attribute, ast.Constant, ast.Load)) for n in ast.walk(e))
+
+
+def collect_helpers(cls, other_classes=()):
+    """
+    `def _name(self, p1, ..): [docstring]; return <expr>` (not async, no decorator, no defaults / *args, <expr> reads only
+    self and the parameters, no call of another method of the class other than such helpers) is a *helper*: a call
+    `self._name(a1, ..)` inside a translated condition is replaced by <expr> with the arguments substituted before the
+    atoms are looked up.  The name must not be defined by any other class of the package (an override would make the
+    call mean something else in a subclass).
+    """
+    for f in cls.body:
+        if not isinstance(f, ast.FunctionDef) or f.decorator_list or not f.name.startswith("_") or f.name.startswith("__"):
+            continue
+        a = f.args
+        if a.vararg or a.kwarg or a.kwonlyargs or a.defaults or a.posonlyargs or not a.args or a.args[0].arg != "self":
+            continue
+        b = _body(f.body)
+        if len(b) != 1 or not isinstance(b[0], ast.Return) or b[0].value is None:
+            continue
+        params = [x.arg for x in a.args[1:]]
+        free = {n.id for n in ast.walk(b[0].value) if isinstance(n, ast.Name)}
+        if not free <= set(params) | {"self"}:
+            continue
+        if any(isinstance(n, (ast.Await, ast.NamedExpr, ast.Lambda, ast.Yield, ast.YieldFrom)) for n in ast.walk(b[0].value)):
+            continue
+        if any(isinstance(g, (ast.FunctionDef, ast.AsyncFunctionDef)) and g.name == f.name
+               for c in other_classes for g in c.body) or sum(1 for g in cls.body if getattr(g, "name", None) == f.name) != 1:
+            continue
+        _HELPERS[f.name] = (params, b[0].value)
+
+
+def _inline(e, where, depth=0):
+    """`self._helper(args)` -> the helper's expression; None if e is not such a call"""
+    if not (isinstance(e, ast.Call) and isinstance(e.func, ast.Attribute) and isinstance(e.func.value, ast.Name)
+            and e.func.value.id == "self" and e.func.attr in _HELPERS):
+        return None
+    import copy
+    params, expr = _HELPERS[e.func.attr]
+    if depth > 4:
+        raise TranslatorError(f"{where}: helper `{e.func.attr}` is recursive")
+    args = dict(zip(params, e.args))
+    for k in e.keywords:
+        if k.arg is None or k.arg not in params or k.arg in args:
+            raise TranslatorError(f"{where}: cannot match the arguments of `{ast.unparse(e)[:80]}`")
+        args[k.arg] = k.value
+    if len(e.args) > len(params) or set(args) != set(params):
+        raise TranslatorError(f"{where}: cannot match the arguments of `{ast.unparse(e)[:80]}`")
+    if not all(_pure_arg(x) for x in args.values()):
+        raise TranslatorError(f"{where}: argument of `{ast.unparse(e)[:80]}` is not a plain name / attribute read")
+    return Subst(args).visit(copy.deepcopy(expr))
+
+
 class Cond:
-    """boolean expression over a vocabulary of atoms -> Lean Bool term"""
+    """
+    boolean expression over a vocabulary of atoms -> Lean Bool term, in a normal form: negations pushed to the atoms
+    (`not (a and b)` = `not a or not b`, double negations dropped), nested and/or of the same kind flattened, operands
+    sorted.  Two conditions that differ only by De Morgan, parenthesisation or operand order give the same text.
+    """
 
     def __init__(self, where: str, vocab: dict[str, str], env: dict | None = None):
         self.where, self.vocab, self.env = where, vocab, env or {}
         self.used: set[str] = set()
 
-    def atom(self, e) -> str:
+    def atom(self, e, neg=False) -> str:
         u = _norm(e, self.env)
         if u in self.vocab:
-            self.used.add(self.vocab[u].strip("(!)"))
-            return self.vocab[u]
+            t = self.vocab[u]
+            self.used.add(t.strip("(!)"))
+            if t.startswith("(!") and neg:
+                return t[2:-1]
+            return f"(!{t})" if neg else t
         raise TranslatorError(f"{self.where}: condition `{u[:110]}` is outside the translated vocabulary")
 
-    def tr(self, e) -> str:
-        if isinstance(e, ast.BoolOp):
-            parts = sorted(self.tr(v) for v in e.values)
-            return "(" + (" && " if isinstance(e.op, ast.And) else " || ").join(parts) + ")"
+    def _flat(self, e, op, neg, depth):
+        """operands of a maximal and/or tree of kind `op` (as seen through negations and helper calls)"""
+        h = _inline(e, self.where, depth)
+        if h is not None:
+            return self._flat(h, op, neg, depth + 1)
         if isinstance(e, ast.UnaryOp) and isinstance(e.op, ast.Not):
-            return f"(!{self.tr(e.operand)})"
+            return self._flat(e.operand, op, not neg, depth)
+        if isinstance(e, ast.BoolOp):
+            eff = ast.And if isinstance(e.op, ast.And) != neg else ast.Or
+            if eff is op:
+                return [x for v in e.values for x in self._flat(v, op, neg, depth)]
+        return [self.tr(e, neg, depth)]
+
+    def tr(self, e, neg=False, depth=0) -> str:
+        h = _inline(e, self.where, depth)
+        if h is not None:
+            return self.tr(h, neg, depth + 1)
+        if isinstance(e, ast.BoolOp):
+            eff = ast.And if isinstance(e.op, ast.And) != neg else ast.Or
+            parts = sorted(x for v in e.values for x in self._flat(v, eff, neg, depth))
+            return "(" + (" && " if eff is ast.And else " || ").join(parts) + ")"
+        if isinstance(e, ast.UnaryOp) and isinstance(e.op, ast.Not):
+            return self.tr(e.operand, not neg, depth)
         if isinstance(e, ast.IfExp):
-            return f"(bif {self.tr(e.test)} then {self.tr(e.body)} else {self.tr(e.orelse)})"
+            return f"(bif {self.tr(e.test, False, depth)} then {self.tr(e.body, neg, depth)} else {self.tr(e.orelse, neg, depth)})"
         if isinstance(e, ast.Compare) and len(e.ops) == 1:
             op, l, r = e.ops[0], e.left, e.comparators[0]
             if isinstance(op, (ast.Is, ast.IsNot)) and isinstance(r, ast.Constant) and r.value is None:
-                pos = self.atom(ast.Compare(left=l, ops=[ast.IsNot()], comparators=[r]))
-                return pos if isinstance(op, ast.IsNot) else f"(!{pos})"
+                return self.atom(ast.Compare(left=l, ops=[ast.IsNot()], comparators=[r]), neg != isinstance(op, ast.Is))
             if isinstance(op, ast.NotIn):
-                return f"(!{self.atom(ast.Compare(left=l, ops=[ast.In()], comparators=[r]))})"
+                return self.atom(ast.Compare(left=l, ops=[ast.In()], comparators=[r]), not neg)
             if isinstance(op, ast.IsNot):
-                return f"(!{self.atom(ast.Compare(left=l, ops=[ast.Is()], comparators=[r]))})"
-        return self.atom(e)
+                return self.atom(ast.Compare(left=l, ops=[ast.Is()], comparators=[r]), not neg)
+            if isinstance(op, ast.NotEq):
+                return self.atom(ast.Compare(left=l, ops=[ast.Eq()], comparators=[r]), not neg)
+        return self.atom(e, neg)
 
 
 def guard_chain(stmts, where, vocab, env=None, stop=None):
@@ -175,10 +274,59 @@ def need(used, params, where):
         raise TranslatorError(f"{where}: the code no longer tests {missing}")
 
 
+def module_consts(tree, ids: dict[str, int]) -> dict:
+    """
+    Names that stand for an integer in every function of the module: `NAME = <int literal>` or `NAME = <Payload>.msg_id`
+    at module level, bound exactly once in the whole file (no second assignment, augmented assignment, `global`, loop /
+    with / import target of that name anywhere); and the attribute reads `<Payload>.msg_id` themselves.  They are replaced
+    by the literal before an atom is looked up, so `cell.message[0] == EXTEND_MSG_ID` is the atom `cell.message[0] == 4`
+    exactly when the constant is 4.
+    """
+    env: dict = {f"{c}.msg_id": ast.Constant(v) for c, v in ids.items()}
+    stores: dict[str, int] = {}
+    for n in ast.walk(tree):
+        if isinstance(n, ast.Name) and isinstance(n.ctx, (ast.Store, ast.Del)):
+            stores[n.id] = stores.get(n.id, 0) + 1
+        elif isinstance(n, (ast.Global, ast.Nonlocal)):
+            for x in n.names:
+                stores[x] = stores.get(x, 0) + 2
+        elif isinstance(n, (ast.Import, ast.ImportFrom)):
+            for a in n.names:
+                x = (a.asname or a.name).split(".")[0]
+                stores[x] = stores.get(x, 0) + 1
+        elif isinstance(n, (ast.FunctionDef, ast.AsyncFunctionDef, ast.ClassDef)):
+            stores[n.name] = stores.get(n.name, 0) + 1
+    for st in tree.body:
+        tgt = val = None
+        if isinstance(st, ast.Assign) and len(st.targets) == 1 and isinstance(st.targets[0], ast.Name):
+            tgt, val = st.targets[0].id, st.value
+        elif isinstance(st, ast.AnnAssign) and isinstance(st.target, ast.Name) and st.value is not None:
+            tgt, val = st.target.id, st.value
+        if tgt is None or stores.get(tgt) != 1:
+            continue
+        if isinstance(val, ast.Constant) and type(val.value) is int:
+            env[tgt] = ast.Constant(val.value)
+        elif ast.unparse(val) in env and isinstance(val, ast.Attribute):
+            env[tgt] = env[ast.unparse(val)]
+    return env
+
+
+def fn_env(fn, consts: dict) -> dict:
+    """the module constants visible in fn: not shadowed by a parameter or a local binding"""
+    local = {a.arg for a in fn.args.args + fn.args.kwonlyargs + fn.args.posonlyargs}
+    local |= {x.arg for x in (fn.args.vararg, fn.args.kwarg) if x}
+    local |= {n.id for n in ast.walk(fn) if isinstance(n, ast.Name) and isinstance(n.ctx, (ast.Store, ast.Del))}
+    return {k: v for k, v in consts.items() if k.split(".")[0] not in local}
+
+
 # ---- the functions -----------------------------------------------------------------------------------------------------
 def translate() -> tuple[str, dict]:
     comm = _parse(COMM)
     tc = _cls(comm, "TunnelCommunity")
+    _HELPERS.clear()
+    others = [n for rel in (COMM, HIDDEN) if (REPO / rel).exists() for n in _parse(rel).body
+              if isinstance(n, ast.ClassDef) and n.name != "TunnelCommunity"]
+    collect_helpers(tc, others)
     out = ["/- GENERATED by tools/gen_c05.py from ipv8/messaging/anonymization/{community,crypto,payload,tunnel}.py — do not edit -/",
            "namespace Ipv8.C05.Gen", ""]
     info = {}
@@ -350,15 +498,29 @@ def translate() -> tuple[str, dict]:
             break
         elif not _is_log(st):
             raise TranslatorError(f"on_data: unexpected statement `{ast.unparse(st)[:80]}`")
-    if ours is None or "exit_data" not in ast.unparse(ast.Module(body=ours.orelse, type_ignores=[])):
-        raise TranslatorError("on_data: expected `if <our circuit>: ... else: ... exit_data(...)`")
+    def src(stmts):
+        return ast.unparse(ast.Module(body=list(stmts), type_ignores=[]))
+    after = odt[odt.index(ours) + 1:] if ours is not None else []
+    if ours is not None and ours.orelse and "exit_data" in src(ours.orelse) and "exit_data" not in src(ours.body) \
+            and "exit_data" not in src(after):
+        ours_test = ours.test                                        # if <ours>: deliver   else: exit_data
+    elif ours is not None and ours.orelse and "exit_data" in src(ours.body) and "exit_data" not in src(ours.orelse) \
+            and "exit_data" not in src(after) and not after:
+        ours_test = ast.UnaryOp(op=ast.Not(), operand=ours.test)     # if <not ours>: exit_data   else: deliver
+    elif ours is not None and not ours.orelse and "exit_data" in src(ours.body) and isinstance(ours.body[-1], ast.Return) \
+            and ours.body[-1].value is None and "exit_data" not in src(after) \
+            and not any(isinstance(n, ast.Return) for st in ours.body[:-1] for n in ast.walk(st)):
+        ours_test = ast.UnaryOp(op=ast.Not(), operand=ours.test)     # guard clause: if <not ours>: exit_data; return
+    else:
+        raise TranslatorError("on_data: expected `if <our circuit>: ... else: ... exit_data(...)` or the guard-clause form "
+                              "`if <not our circuit>: ... exit_data(...); return`")
     vo = {"self.circuits.get(payload.circuit_id, None)": "hasCircuit", "self.circuits.get(payload.circuit_id)": "hasCircuit",
           "payload.org_address": "originTruthy",
           "sock_addr == self.circuits.get(payload.circuit_id, None).hop.address": "srcIsFirstHop",
           "sock_addr == self.circuits.get(payload.circuit_id).hop.address": "srcIsFirstHop",
           "self.circuits.get(payload.circuit_id, None).hop.address == sock_addr": "srcIsFirstHop"}
     c = Cond("on_data", vo, env)
-    body = c.tr(ours.test)
+    body = c.tr(ours_test)
     need(c.used, ["hasCircuit", "srcIsFirstHop"], "on_data")
     out.append(lean_fn("dataOurs", ["hasCircuit", "originTruthy", "srcIsFirstHop"], body,
                        "on_data delivers the payload as data of an own circuit (otherwise it goes to exit_data)"))
@@ -423,7 +585,8 @@ def translate() -> tuple[str, dict]:
     vp = {"cell.relay_early": "relayEarly", f"cell.message[0] == {ids['ExtendPayload']}": "isExtend",
           "self.max_relay_early <= 0": "noBudgetAtAll", "cell.plaintext": "plaintext",
           "cell.message[0] in NO_CRYPTO_PACKETS": "noCrypto", "self.tunnel_community": "hasCommunity"}
-    conds, _, k, stmts = guard_chain(pc[start + 1:], "process_cell", vp)
+    consts = module_consts(cr, ids)
+    conds, _, k, stmts = guard_chain(pc[start + 1:], "process_cell", vp, fn_env(_fn(pe, "process_cell"), consts))
     if k >= len(stmts) or "self.tunnel_community.on_packet" not in ast.unparse(stmts[k]):
         raise TranslatorError("process_cell: the guard chain is not followed by the dispatch to the community")
     body, used = disj(conds, "process_cell", vp)
